@@ -241,7 +241,11 @@ class C05(Check):
             scheds.append({'fam': name, 'rle': r})
         return {'content': rec, 'kind': kind, 'scheds': scheds,
                 # the caller keeps presenting the stream after an error
-                'feed_after_error': st('config').random() < 0.3}
+                'feed_after_error': st('config').random() < 0.3,
+                # the inspectors are built with tracing=True
+                'tracing': st('config').random() < 0.15,
+                'chunk_kind': core.weighted(st('config'),
+                                            imgsim.CHUNK_KINDS)}
 
     def execute(self, case):
         log = core.EventLog()
@@ -291,7 +295,9 @@ class C05(Check):
                 r = imgsim.drive_bare(name, data, sizes, watch_regions=False,
                                       mem_bound=bound_of(name),
                                       feed_after_error=bool(
-                                          case.get('feed_after_error')))
+                                          case.get('feed_after_error')),
+                                      tracing=bool(case.get('tracing')),
+                                      kind=case.get('chunk_kind'))
                 if r['error'] and case.get('feed_after_error'):
                     bump(fa, 'fed_after_error')
                 bump(stats['sim'], 'bytes', n)
